@@ -359,6 +359,36 @@ def disconnect_record(ctx: Ctx, rule: str):
         ctx.fail("remove_peer_connection:disconnect_reason", rem.loc(),
                  "disconnect_reason is not stored from the caller's reason when (and only when) "
                  "it is still unset")
+    # the reason that is stored is a reason: the parameter it comes from has a default that is
+    # one of the DISCONNECT_REASON constants in both removal functions, and no caller passes None
+    # ("None" is what the record means before the first disconnect)
+    ccs_ = nc.methods.get("close_connection_socket")
+    for f_ in (rem, ccs_):
+        if f_ is None:
+            continue
+        cons = f"{f_.name}:disconnect_reason#never-none"
+        ctx.inst(cons)
+        args_ = f_.node.args
+        names_ = [a.arg for a in args_.args]
+        rp = [n_ for n_ in names_ if "reason" in n_]
+        if not rp:
+            ctx.fail(cons, f_.loc(), f"{f_.name} has no disconnect reason parameter")
+            continue
+        idx = names_.index(rp[0]) - (len(names_) - len(args_.defaults))
+        if idx >= 0:
+            dv_ = model.try_fold(args_.defaults[idx], f_.module, nc, default="?")
+            if not isinstance(dv_, int) or isinstance(dv_, bool):
+                ctx.fail(cons, f_.loc(), f"the default of `{rp[0]}` in {f_.name} is "
+                         f"`{ast.unparse(args_.defaults[idx])}`, not a DISCONNECT_REASON constant: a "
+                         f"removal without an explicit reason stores None - the peer has no "
+                         f"connection, a disconnect time, and the reason of a peer that was never "
+                         f"disconnected")
+        for cs in call_sites(model, f_.name):
+            pos = names_.index(rp[0]) - 1
+            val = cs.node.args[pos] if len(cs.node.args) > pos else next(
+                (k.value for k in cs.node.keywords if k.arg == rp[0]), None)
+            if isinstance(val, ast.Constant) and val.value is None:
+                ctx.fail(cons, cs.where, f"{cs.func.qualname} passes None as the disconnect reason")
     for f in (add, asg):
         g2 = cfg_of(f)
         sets = [n for n in g2.nodes if n.kind == "stmt" and isinstance(n.ast, ast.Assign)
@@ -503,6 +533,18 @@ def ready_state_stores(ctx: Ctx, rule: str):
                     hp = [a.arg for a in f.node.args.args]
                     hconn = hp[1] if len(hp) > 1 else "conn"
                     in_helper = (f"{hconn}.state", "==", CONNECTED, True) in facts
+                    # the callers have decided that the exchange succeeded; the helper makes the
+                    # connection ready on the word of its state alone
+                    extra = [x for x in facts if x[0] != f"{hconn}.state"]
+                    if extra:
+                        ctx.fail(cons + "#conditions", g.loc(node), f"{f.name} stores PEER_READY only under "
+                                 f"{extra}: a connection whose capabilities exchange has just been "
+                                 f"answered 2001 (or whose CEA said 2001) and that fails the extra "
+                                 f"condition - a peer's second connection, an inbound connection while "
+                                 f"our own dial is pending - stays CONNECTED: it is told it is in "
+                                 f"service, everything it sends is ignored, and the CER/CEA time-out "
+                                 f"closes it", expected="conditioned on conn.state only",
+                                 observed=str(extra))
                     asg = f.cls.methods.get("_assign_peer_connection") if f.cls else None
                     if in_helper and asg is not None:
                         ga_ = cfg_of(asg)
@@ -1757,6 +1799,25 @@ def realm_key_case(ctx: Ctx, rule: str):
                              f"only in such a character is matched (a request for a foreign realm is "
                              f"delivered, an unknown peer is accepted as a known one)", rule=rule,
                              expected="<bytes>.lower().decode(...)", observed=ast.unparse(x)[:60])
+    # ... and decoded without dropping anything: errors="ignore" deletes the bytes that are not
+    # text, so that b"exam\xffple.org" becomes the served "example.org"; strict decoding (caught)
+    # and "replace" (U+FFFD is in no configured name) keep different names different
+    cons_d = "received-names:lossless-decode"
+    ctx.inst(cons_d, rule=rule)
+    for fn_ in nc.all_funcs:
+        for x in A.walk_no_nested(fn_.node):
+            if isinstance(x, ast.Call) and isinstance(x.func, ast.Attribute) and x.func.attr == "decode":
+                mode = next((k.value for k in x.keywords if k.arg == "errors"), x.args[1] if len(x.args) > 1 else None)
+                mv = model.try_fold(mode, fn_.module, nc) if mode is not None else "strict"
+                src = ast.unparse(x.func.value)
+                if mv in ("ignore",) and any(k in src for k in (
+                        "origin_host", "destination_realm", "dest_realm", "origin_realm", "destination_host")):
+                    ctx.fail(cons_d, fn_.loc(x), f"`{ast.unparse(x)[:80]}` decodes a received name with "
+                             f"errors=\"ignore\": bytes that are not valid text are deleted, so a name "
+                             f"that is not served (b\"exam\\xffple.org\") collapses onto one that is - "
+                             f"the request is delivered to an application instead of being answered "
+                             f"3003 (an unknown peer is taken for a configured one)", rule=rule,
+                             expected='strict (caught) or errors="replace"', observed='errors="ignore"')
     kinds = {lo for _, _, lo, _ in sites}
     if kinds == {False}:
         f0, x0 = sites[0][0], sites[0][1]
@@ -1929,6 +1990,35 @@ def routed_record_rechecked(ctx: Ctx, rule: str):
                  f"_app_waiting_answer for ever (one per such connection loss)", rule=rule,
                  expected="after filing: `if conn.ident not in self.connections: pop the record, raise "
                           "NotRoutable` (or one lock for filing and sweeping)")
+    # the other half of that protocol: the removal takes the connection out of `connections`
+    # BEFORE it sweeps the transaction tables (a router that finds the connection still
+    # registered after filing may rely on the sweep coming)
+    rem = nc.methods.get("remove_peer_connection")
+    if rem is None:
+        raise AnalysisError("Node.remove_peer_connection not found")
+    ctx.use(rem)
+    cons = "remove_peer_connection:unregister-before-sweep"
+    ctx.inst(cons, rule=rule)
+    if takes_back and not locked:
+        gr = cfg_of(rem)
+        unreg = [n for n in gr.nodes if n.kind == "stmt" and (any(
+            isinstance(c.func, ast.Attribute) and c.func.attr == "pop" and A.dotted(c.func.value) == "self.connections"
+            for c in n.calls()) or any(isinstance(t, ast.Subscript) and A.dotted(t.value) == "self.connections"
+                                        for t in n.deletes()))]
+        sweeps = [n for n in gr.nodes if n.kind in ("stmt", "iter") and n.ast is not None and any(
+            isinstance(x, ast.Attribute) and x.attr == "_app_waiting_answer" for x in
+            (ast.walk(n.ast.iter) if n.kind == "iter" else ast.walk(n.ast)))]
+        if not unreg or not sweeps:
+            raise AnalysisError("remove_peer_connection: unregistration or sweep of _app_waiting_answer not found")
+        late = [sw for sw in sweeps if not gr.dominated(sw, unreg)]
+        if late:
+            ctx.fail(cons, gr.loc(late[0]), f"remove_peer_connection reads/sweeps _app_waiting_answer "
+                     f"(`{late[0].text(60)}`) on a path on which the connection is still in "
+                     f"`connections`: route_request, which files its record and then checks "
+                     f"`conn.ident in self.connections`, can file after the sweep and still find the "
+                     f"connection registered - the record is never removed", rule=rule,
+                     expected="connections.pop(...) before the first look at the table",
+                     observed="sweep first, unregistration later")
 
 
 def wakeup_pipe_cannot_block(ctx: Ctx, rule: str):
@@ -2375,7 +2465,7 @@ def no_lock_reacquired(ctx: Ctx, rule: str):
     from ..lockset import held_locks, lock_fields
     model = ctx.model
     ctx.rule(rule, "no method re-acquires a non-re-entrant lock of `self` that its caller in the "
-                   "same class already holds", floor=2)
+                   "same class already holds", floor=1)
     n_cls = 0
     for ci in model.all_classes():
         if ".node" not in ci.module.name:
@@ -2433,4 +2523,59 @@ def no_lock_reacquired(ctx: Ctx, rule: str):
                                  observed=f"{m.qualname} acquires self.{lk}")
                         break
     ctx.inst("classes-with-plain-locks", rule=rule, sample=n_cls)
-    ctx.inst("classes-with-plain-locks#2", rule=rule, nontrivial=False)
+    if n_cls < 1:
+        from ..srcmodel import AnalysisError
+        raise AnalysisError("no class of the node package holds a threading.Lock")
+
+
+
+# ---------------------------------------------------------------------------------------------
+# the socket that was taken out of the table
+def taken_socket_is_closed(ctx: Ctx, rule: str):
+    """close_connection_socket: once the socket has been taken out of `peer_sockets` (the `pop`
+    that decides which of two racing callers closes it) every path to the end of the function
+    closes that socket and the connection object - also the path on which preparing the close
+    (SO_LINGER / abort) fails, because nobody can find the socket again afterwards."""
+    from ..effects import fault_effects_of
+    from ..srcmodel import AnalysisError
+    model = ctx.model
+    nc = model.cls("node.node", "Node")
+    f = nc.methods.get("close_connection_socket")
+    if f is None:
+        raise AnalysisError("Node.close_connection_socket not found")
+    ctx.use(f)
+    ctx.rule(rule, "close_connection_socket closes the socket it took out of the table, and the "
+                   "connection object, on every path (also when SO_LINGER / abort fails)", floor=2)
+    # every statement inside a `try` may raise into its handlers
+    g = cfg_of(f, exc_everywhere=True)
+    connp = [a.arg for a in f.node.args.args][1]
+    take = [n for n in g.nodes if n.kind == "stmt" and isinstance(n.ast, ast.Assign)
+            and isinstance(n.ast.value, ast.Call) and "peer_sockets" in ast.unparse(n.ast.value.func)
+            and isinstance(n.ast.targets[0], ast.Name)]
+    if not take:
+        raise AnalysisError("close_connection_socket: the statement that takes the socket was not found")
+    sock = take[0].ast.targets[0].id
+    tests = [n for n in g.nodes if n.kind == "test" and n.ast is not None and sock in
+             {x.id for x in ast.walk(n.ast) if isinstance(x, ast.Name)} and g.can_reach(take[0], n)]
+    starts = [d for t in tests[:1] for l, d in t.succ if l == "T"] if tests else \
+        [d for l, d in take[0].succ if l != "exc"]
+    if tests and not starts:
+        starts = [d for l, d in tests[0].succ if l != "exc"][:1]
+    for what, goal in (("socket", [n for n in g.nodes if n.has_call(f"{sock}.close")]),
+                       ("connection", [n for n in g.nodes if n.has_call(f"{connp}.close")])):
+        cons = f"close_connection_socket:{what}-closed-on-every-path"
+        ctx.inst(cons, rule=rule)
+        if not goal:
+            ctx.fail(cons, f.loc(), f"close_connection_socket never closes the {what}", rule=rule)
+            continue
+        r = g.reach(starts, normal_blocked=goal)
+        if g.exit in r:
+            skip = [n for n in r if n.kind == "handler"]
+            ctx.fail(cons, g.loc(skip[0]) if skip else g.loc(goal[0]),
+                     f"a path from taking the socket out of peer_sockets to the end of "
+                     f"close_connection_socket does not close the {what} (the close sits inside the "
+                     f"try whose handler swallows a failed setsockopt / abort): the tables are "
+                     f"cleaned, the descriptor stays open"
+                     + (" and the connection's two worker threads keep running" if what == "connection" else "")
+                     + " - nothing refers to them any more", rule=rule,
+                     expected="close() on every path after the pop", observed="a path around it")
